@@ -64,6 +64,8 @@ static inline drv::Result run_exact(lzma_stream *strm, const uint8_t *in, size_t
 		} else if (ret == LZMA_NO_CHECK || ret == LZMA_UNSUPPORTED_CHECK || ret == LZMA_GET_CHECK) {
 			r.info.push_back((int)ret);
 		} else if (ret == LZMA_BUF_ERROR) {
+			if (avail > 0 && win > 0 && !o.input_beyond_declared_size)   // same rule as drv.h: no-progress-possible cannot be the answer to a call that has input and output space
+				vg::violation("C11:buf-error-with-input-and-output-space", "call %zu returned LZMA_BUF_ERROR although it was given %zu bytes of unread input and %zu bytes of output space", r.calls, avail, win);
 			if (everything) { r.ret = ret; break; }
 		} else if (ret == LZMA_MEMLIMIT_ERROR && !o.stop_on_memlimit) {
 			// the hook has raised the limit
